@@ -254,6 +254,10 @@ def main(cid, tier, seed, replay=None, as_json=False, nproc=None, max_confirm=4)
     }
     with open(os.path.join(EVID, "%s.json" % cid), "w") as fh:
         json.dump(ev, fh, indent=1, default=str)
+    if os.environ.get("VERIF_DEBUG"):
+        order = sorted(range(len(all_cases)), key=lambda i: -all_results[i].get("wall", 0))[:12]
+        for i in order:
+            print("  slow: %.1fs %s" % (all_results[i].get("wall", 0), label(all_cases[i])))
     print("%s %s seed=%d: cases=%d states=%d edges=%d evals=%d outcomes=%d undecided=%d violations=%d known=%d wall=%.1fs exit=%d" % (
         cid, tier, seed, len(all_cases), cov["states"], cov["transitions"], n_evals, len(outcomes), n_undecided,
         n_viol, len(known_seen), time.time() - t_start, exit_code))
